@@ -114,6 +114,10 @@ func parseRequest(body []byte) (*ParseRequestResponse, error) {
 		}
 
 		for _, r := range multipleRequests {
+			// a null element decodes to a nil request
+			if r == nil {
+				return nil, errors.New("missing query from request")
+			}
 			if r.Query == "" {
 				return nil, errors.New("missing query from request")
 			}
